@@ -405,6 +405,14 @@ fn fam_wide(t: &mut Tracer, rng: &mut Rng, cx: &Ctx) {
         let nroot = if var == Var::B { rng.range(230, 254) } else { rng.range(200, 290) };
         let mut all: Vec<u32> = (0..universe).collect();
         rng.shuffle(&mut all);
+        let (nroot, all) = if var == Var::B && rng.chance(1, 2) {
+            // all byte values except a pair {2m, 2m+1}: the root's children then fill block 0 to its
+            // very last vacant slot (BASE = 2m or 2m+1)
+            let m = rng.below(128) as u32;
+            (254, (0..256u32).filter(|&x| x != 2 * m && x != 2 * m + 1).collect::<Vec<u32>>())
+        } else {
+            (nroot, all)
+        };
         for &x in all.iter().take(nroot) {
             let p = vec![base + x];
             if !pats.contains(&p) {
@@ -582,7 +590,7 @@ fn invalid_typed<V: Val>(t: &mut Tracer, rng: &mut Rng, _cx: &Ctx, var: Var, kin
     let mut alpha = pick_alphabet(rng, var);
     let mut np = rng.range(0, 6);
     // sometimes long patterns (of mixed character widths): error paths format the offending pattern
-    let long = rng.chance(1, 3);
+    let long = rng.chance(if var == Var::C { 2 } else { 1 }, 4);
     if long && var == Var::C {
         alpha.pat = vec![0x61, 0xe9, 0x4e16, 0x1f600, 0x62];
         np = np.max(1);
@@ -714,7 +722,11 @@ fn fam_invalid(t: &mut Tracer, rng: &mut Rng, cx: &Ctx) {
 /// C14: same input twice, permutations, purity of searching
 fn perm_typed<V: Val>(t: &mut Tracer, rng: &mut Rng, _cx: &Ctx, var: Var, kind: Kind) {
     let alpha = if rng.chance(1, 3) { dict_alphabet(rng, var) } else { pick_alphabet(rng, var) };
-    let np = if rng.chance(1, 4) { rng.range(20, 80) } else { rng.range(2, 6) };
+    let np = match rng.below(6) {
+        0 => rng.range(20, 80),
+        1 => rng.range(100, 220), // several blocks
+        _ => rng.range(2, 6),
+    };
     let pats = gen_patterns(rng, &alpha.pat, np, 5);
     let nfb = *rng.pick(&[1u32, 2, 16]);
     let spec = BuildSpec { var, kind, entry: "with_values", via_builder: true, nfb, pats };
@@ -907,7 +919,7 @@ fn fam_shadow(t: &mut Tracer, rng: &mut Rng, cx: &Ctx) {
 /// range of u8 (quick) / u16 (thorough): a truncated or wrapped index becomes visible
 fn fam_bigindex(t: &mut Tracer, rng: &mut Rng, cx: &Ctx) {
     let var = if rng.chance(1, 2) { Var::C } else { Var::B };
-    let n: usize = if rng.chance(1, if cx.thorough { 2 } else { 4 }) { 66_000 + rng.below(3000) } else { rng.range(300, 700) };
+    let n: usize = if rng.chance(1, 2) { 66_000 + rng.below(3000) } else { rng.range(300, 700) };
     let k: u32 = if n > 60_000 { 260 } else { 30 };
     let base: u32 = if var == Var::C { 0x4e00 } else { 0 };
     let sym = |d: u32| -> u32 { if var == Var::B { d % 256 } else { base + d } };
@@ -1030,7 +1042,7 @@ pub fn family_of(prop: &str, i: u64) -> &'static str {
         "C01" | "C02" | "C03" | "C05" | "C08" | "C13" => match i % 12 {
             11 | 3 => "dict",
             5 => "wide",
-            8 => "chain",
+            8 | 1 => "chain",
             _ => "small",
         },
         "C04" | "C15" => match i % 12 {
@@ -1073,7 +1085,7 @@ pub fn family_of(prop: &str, i: u64) -> &'static str {
         "C11" => match i % 8 {
             3 | 7 => "nfb",
             5 => "wide",
-            1 => "chain",
+            1 | 6 => "chain",
             _ => "small",
         },
         "C12" => match i % 3 {
